@@ -140,15 +140,43 @@ Proof.
   exact (r_once _ _ _ _ _ _ s (i_rev s I) x y id Hx Hy Kx Ky).
 Qed.
 
-Theorem e2_ik_same_outcome : forall s, reachable s -> ik_same_outcome s.
+(* same outcome, for retries of the same kind of write: the kind of the stored entry is the kind of the request *)
+Theorem e2_ik_same_outcome_same_kind : forall s, reachable s ->
+  forall t th x e, get_thread (threads s) t = Some th -> t_resp th = Some (ROk x) -> rq_dry (t_req th) = false ->
+    rq_ik (t_req th) <> 0%N -> In e (persisted s) -> e_ik e = rq_ik (t_req th) ->
+    same_kind (e_kind e) (rq_kind (t_req th)) = true -> e_txid e = x.
 Proof.
-  intros s Hr t th x e Hth Hresp Hdry Hk He Hik. pose proof (e2_inv_reachable s Hr) as I.
+  intros s Hr t th x e Hth Hresp Hdry Hk He Hik Hkind. pose proof (e2_inv_reachable s Hr) as I.
   pose proof (e2_gth_of_get _ _ _ Hth) as Hg.
-  destruct (b_ok s (i_b s I) t (ug th) x Hg Hresp Hdry) as [e0 (H0&I0&X0)]. cbn in I0.
+  destruct (b_ok s (i_b s I) t (ug th) x Hg Hresp Hdry) as [e0 (H0&I0&X0)]. cbn in I0, X0.
   assert (K : forall z, e_ik z = rq_ik (t_req th) -> eik_key z = Some (rq_ik (t_req th))).
   { intros z Ez. apply e2_eik_key_of; [exact Hk|]. rewrite Ez. apply N.eqb_refl. }
-  rewrite <- X0. f_equal.
-  exact (r_once _ _ _ _ _ _ s (i_ik s I) e e0 _ (e2_persisted_all _ _ He) (e2_persisted_all _ _ H0) (K _ Hik) (K _ I0)).
+  assert (Eq : e = e0)
+    by exact (r_once _ _ _ _ _ _ s (i_ik s I) e e0 _ (e2_persisted_all _ _ He) (e2_persisted_all _ _ H0) (K _ Hik) (K _ I0)).
+  subst e0. destruct X0 as [X0|[X0 _]]; [exact X0|congruence].
+Qed.
+
+(* the executable hypothesis: no request shares its key with a persisted entry of another kind of write *)
+Definition ik_kind_consistent_b (s : state) : bool :=
+  forallb (fun p => let rq := t_req (snd p) in
+                    N.eqb (rq_ik rq) 0 ||
+                    forallb (fun e => negb (N.eqb (e_ik e) (rq_ik rq)) || same_kind (e_kind e) (rq_kind rq)) (persisted s))
+          (threads s).
+
+Lemma e2_get_thread_In : forall l t th, get_thread l t = Some th -> In (t, th) l.
+Proof.
+  induction l as [|[u x] r IH]; intros t th H; cbn in H; [discriminate|].
+  destruct (Nat.eqb t u) eqn:E; [apply Nat.eqb_eq in E; inversion H; subst; left; reflexivity|right; apply IH; exact H].
+Qed.
+
+Theorem e2_ik_same_outcome_partial : forall s, reachable s -> ik_kind_consistent_b s = true -> ik_same_outcome s.
+Proof.
+  intros s Hr Hc t th x e Hth Hresp Hdry Hk He Hik.
+  apply (e2_ik_same_outcome_same_kind s Hr t th x e Hth Hresp Hdry Hk He Hik).
+  unfold ik_kind_consistent_b in Hc. rewrite forallb_forall in Hc.
+  specialize (Hc _ (e2_get_thread_In _ _ _ Hth)). cbn in Hc.
+  destruct (N.eqb (rq_ik (t_req th)) 0) eqn:Z; [apply N.eqb_eq in Z; contradiction|]. cbn in Hc.
+  rewrite forallb_forall in Hc. specialize (Hc e He). rewrite Hik, N.eqb_refl in Hc. exact Hc.
 Qed.
 
 (* every entry carries the key, the reference and the revert target of the request that produced it *)
